@@ -229,3 +229,98 @@ pub fn limits(_seed: u64) -> usize {
     });
     found
 }
+
+fn target(addr: &str, id: &str) -> Target {
+    Target { identifier: id.into(), address: SocketAddr::from_str(addr).unwrap(), meta: Default::default() }
+}
+
+/// C01/C03/C06/C10: a complete login, then a transfer with the stored cookie; checks identity, cookies, transfer target
+pub fn session(_seed: u64) -> usize {
+    use passage_protocol::cookie::{verify, AuthCookie, SessionCookie};
+    let rt = crate::rt();
+    let mut found = 0;
+    let secret = b"cookie-secret".to_vec();
+    for addr in ["10.0.0.7:25570", "[2001:db8::7]:25571"] {
+        let sc = Scenario { secret: Some(secret.clone()), targets: vec![target(addr, "lobby-1"), target("10.9.9.9:1", "other")], ..Default::default() };
+        let profile = sc.profile.clone();
+        let t = rt.block_on(run(sc));
+        let want = SocketAddr::from_str(addr).unwrap();
+        // C01: the authenticated identity, not the claimed one
+        if t.login_success != Some((profile.name.clone(), profile.id)) {
+            println!("REPRODUCED session LoginSuccess carries {:?}, the authentication service vouched for {:?}/{}", t.login_success, profile.name, profile.id);
+            found += 1;
+        }
+        // C03: exactly the chosen target, as last packet
+        if t.transfer != Some((want.ip().to_string(), want.port())) {
+            println!("REPRODUCED session Transfer {:?}, the strategy chose {want} (client_error={:?}, server={:?})", t.transfer, t.client_error, t.server_result);
+            found += 1;
+        }
+        // C10: auth cookie then session cookie, both before the transfer
+        let keys: Vec<&str> = t.stored.iter().map(|(k, _)| k.as_str()).collect();
+        if keys != vec![AUTH_COOKIE_KEY, SESSION_COOKIE_KEY] {
+            println!("REPRODUCED session stored cookies {keys:?}, expected [auth, session]");
+            found += 1;
+            continue;
+        }
+        let (ok, body) = verify(&t.stored[0].1, &secret);
+        let parsed: Option<AuthCookie> = serde_json::from_slice(body).ok();
+        match (&parsed, ok) {
+            (Some(c), true) if c.user_name == profile.name && c.user_id == profile.id && c.client_addr.ip() == SocketAddr::from_str("127.0.0.1:25564").unwrap().ip() && c.target.as_deref() == Some("lobby-1") => {}
+            _ => { println!("REPRODUCED session auth cookie does not verify or does not record the authenticated identity/target: ok={ok} cookie={:?}", parsed.map(|c| (c.user_name, c.target))); found += 1; }
+        }
+        let sess: Option<SessionCookie> = serde_json::from_slice(&t.stored[1].1).ok();
+        if sess.as_ref().map(|s| (s.server_address.as_str(), s.server_port)) != Some(("play.example", 25565)) {
+            println!("REPRODUCED session session cookie does not carry the handshake host/port");
+            found += 1;
+        }
+        // C02/C10: the cookie is accepted on the next transfer from the same IP and yields the same identity
+        let sc2 = Scenario { intent: State::Transfer, secret: Some(secret.clone()), auth_cookie: Some(t.stored[0].1.clone()), targets: vec![target(addr, "lobby-1")], ..Default::default() };
+        let t2 = rt.block_on(run(sc2));
+        if t2.should_authenticate != Some(false) || t2.login_success != Some((profile.name.clone(), profile.id)) {
+            println!("REPRODUCED session a freshly issued cookie was not accepted on the next transfer: should_authenticate={:?} login={:?}", t2.should_authenticate, t2.login_success);
+            found += 1;
+        }
+        if t2.stored.iter().any(|(k, _)| k == AUTH_COOKIE_KEY) {
+            println!("REPRODUCED session an auth cookie was re-issued although authentication was skipped");
+            found += 1;
+        }
+    }
+    // C10: no secret, no auth cookie
+    let t = rt.block_on(run(Scenario { targets: vec![target("10.0.0.7:25570", "lobby-1")], ..Default::default() }));
+    if t.stored.iter().any(|(k, _)| k == AUTH_COOKIE_KEY) { println!("REPRODUCED session auth cookie issued without a configured secret"); found += 1; }
+    found
+}
+
+/// C02: the matrix of unacceptable cookies: each must lead to should_authenticate = true
+pub fn cookie_matrix(_seed: u64) -> usize {
+    use passage_protocol::cookie::AuthCookie;
+    let rt = crate::rt();
+    let secret = b"cookie-secret".to_vec();
+    let now = std::time::SystemTime::now().duration_since(std::time::UNIX_EPOCH).unwrap().as_secs();
+    let mk = |ts: u64, addr: &str| -> Vec<u8> {
+        serde_json::to_vec(&AuthCookie { timestamp: ts, client_addr: SocketAddr::from_str(addr).unwrap(), user_name: "FromCookie".into(), user_id: Uuid::from_u128(9),
+            target: None, profile_properties: vec![], extra: Default::default() }).unwrap()
+    };
+    let good = sign(&mk(now, "127.0.0.1:1"), &secret);
+    let mut cases: Vec<(&str, State, Option<Vec<u8>>, Option<Vec<u8>>, bool)> = vec![
+        ("valid", State::Transfer, Some(secret.clone()), Some(good.clone()), false),
+        ("login intent", State::Login, Some(secret.clone()), Some(good.clone()), true),
+        ("no secret", State::Transfer, None, Some(good.clone()), true),
+        ("absent", State::Transfer, Some(secret.clone()), None, true),
+        ("empty", State::Transfer, Some(secret.clone()), Some(vec![]), true),
+        ("other secret", State::Transfer, Some(secret.clone()), Some(sign(&mk(now, "127.0.0.1:1"), b"other")), true),
+        ("other ip", State::Transfer, Some(secret.clone()), Some(sign(&mk(now, "127.0.0.2:1"), &secret)), true),
+        ("expired", State::Transfer, Some(secret.clone()), Some(sign(&mk(now - 6 * 3600 - 5, "127.0.0.1:1"), &secret)), true),
+    ];
+    for cut in [1usize, 31, 32, 33, good.len() - 1] { cases.push(("truncated", State::Transfer, Some(secret.clone()), Some(good[..cut].to_vec()), true)); }
+    for bit in [0usize, 7, 255, 256, 8 * good.len() - 1] { let mut g = good.clone(); g[bit / 8] ^= 1 << (bit % 8); cases.push(("bit flip", State::Transfer, Some(secret.clone()), Some(g), true)); }
+    let mut found = 0;
+    for (name, intent, sec, cookie, want_auth) in cases {
+        let t = rt.block_on(run(Scenario { intent, secret: sec, auth_cookie: cookie.clone(), stop_after_encryption_request: true, ..Default::default() }));
+        if t.should_authenticate != Some(want_auth) {
+            println!("REPRODUCED cookie_matrix case {name:?} ({} cookie bytes): should_authenticate={:?}, expected {want_auth} (client_error={:?}, server={:?})", cookie.map(|c| c.len()).unwrap_or(0), t.should_authenticate, t.client_error, t.server_result);
+            found += 1;
+        }
+    }
+    found
+}
